@@ -3,7 +3,8 @@
 Obligations: coq/Props/C07.v over Model/Txn.v (programs of operations, Butler.transaction blocks, try/except, user
        failures; datastore undo-log stack + pointer, SQL nesting with savepoints, fault at the k-th boundary).
 Tie K: generated transaction programs (depth <= 3, caught / uncaught inner failures, put / ingest(copy, move) / associate /
-       certify / insertDimensionData / expandDataId / pruneDatasets(purge | unstore | disassociate) / emptyTrash) run on a
+       certify / insertDimensionData / expandDataId / pruneDatasets(purge | unstore | disassociate) / emptyTrash; corpus programs
+       also transfer_from / import_ of one dataset from a fixed source repository) run on a
        REAL Butler in worker subprocesses with a fault injected at EACH instrumented SQL / file / formatter boundary in
        turn (positions enumerated by a fault-free run).  The sequence of final observations (registry through the same
        client, raw rows, checksummed root listing, staging area, Datastore._transaction, open SQL transaction), before
@@ -625,8 +626,8 @@ def run(ctx: Ctx):
         "one fault per run, raised INSTEAD of the work at the boundary; boundaries reached while an undo log is replayed or a "
         "ROLLBACK is issued are not faulted (errors there are swallowed by design)",
         "one RUN / TAGGED / CALIBRATION collection, one dataset type, 4 data IDs, 3 governor values, POSIX file datastore with "
-        "the YAML formatter; ChainedDatastore / InMemoryDatastore, import_ / transfer_from, removeRuns and PostgreSQL are "
-        "outside the model",
+        "the YAML formatter; transfer_from / import_ of ONE dataset with transfer='copy' from a fixed source repository (corpus "
+        "programs only); ChainedDatastore / InMemoryDatastore, removeRuns and PostgreSQL are outside the model",
     ]
     ctx.cov["rule"] = (
         "a case (committed pre-history + transaction program, every fault position of the fault-free run replayed on a fresh copy "
@@ -686,12 +687,20 @@ def run(ctx: Ctx):
 
     if ctx.broken and not ctx.oracle_failures and not ctx.replay:
         ctx.log("obligation/tie broken without oracle failure: searching deeper on the implementation")
-        extra = [gen_case(ctx.rng) for _ in range(60 if ctx.quick else 160)]
-        res = execute(ctx, extra, lambda i: ["natural", "interrupt"])
+        if ctx.quick:
+            # bounded: the whole quick run must end within ~6 min even when a tie is broken (a program costs ~8 s at 3 workers
+            # with the natural flavour only); the thorough tier searches 160 programs with both flavours
+            import time
+            n_extra = max(3, min(12, int((345 - (time.time() - ctx.t0)) / 8)))
+            extra = [gen_case(ctx.rng) for _ in range(n_extra)]
+            res = execute(ctx, extra, lambda i: ["natural"], timeout=240)
+        else:
+            extra = [gen_case(ctx.rng) for _ in range(160)]
+            res = execute(ctx, extra, lambda i: ["natural", "interrupt"])
         for k, (c, r) in enumerate(zip(extra, res)):
             if r is not None:
                 check_case(ctx, c, r, f"search/{k}")
-        ctx.cov["search"] = f"{len(extra)} further programs with every fault position and both fault flavours on the implementation; oracle failures found: {len(ctx.oracle_failures)}"
+        ctx.cov["search"] = f"{len(extra)} further programs with every fault position on the implementation ({'natural flavour' if ctx.quick else 'both fault flavours'}); oracle failures found: {len(ctx.oracle_failures)}"
 
 
 def replay(ctx: Ctx, rep):
